@@ -170,6 +170,18 @@ func checkC13(res *CaseResult, jr journalRun, label string) {
 			continue
 		}
 		transfers++
+		// the host's transfer function may only be invoked on entering a CALL or CREATE frame
+		for j := i + 1; j < len(l.Events); j++ {
+			n := &l.Events[j]
+			if n.K == h.KMut || n.K == h.KSnapshot || n.K == h.KRevert {
+				continue
+			}
+			okEntry := n.K == h.KStart || (n.K == h.KEnter && (n.Typ == h.CALL || n.Typ == h.CREATE || n.Typ == h.CREATE2))
+			if !okEntry {
+				res.Fail(Key("transfer-outside-call-entry", label), fmt.Sprintf("a value transfer (and its balance journal entries) was made outside the entry of a CALL/CREATE frame: next event %s", n.Short()), jr.desc, e.Short())
+			}
+			break
+		}
 		idx := uint64(0)
 		if c := jr.sh.CurAt[e.Seq]; c >= 0 {
 			idx = uint64(c)
